@@ -81,16 +81,25 @@ def qobj(lam, w, col):
 
 
 def var_expected(p, col):
-    """set of acceptable values of value_at_risk per the property statement"""
+    """acceptable values of value_at_risk per the property statement.  The level arrives as a double; where it is within
+    1e-9 of one of the statement's case boundaries (p = 1/N, p = 1 - 1/N, p N integral) without being exactly on it in the
+    intended decimal sense (0.8 = 1 - 1/5 is 0.8000000000000000444 as a double), either adjacent case is accepted."""
     N = len(col)
     s = sorted(col)
-    pn = F(p) * N
-    if F(p) <= F(1, N):
-        return "min", s[0]
-    if F(p) > 1 - F(1, N):
-        return "max", s[-1]
+    pq = F(p)
+    pn = pq * N
+    eps = F(1, 10 ** 9)
     k = round(pn)
-    if abs(pn - k) <= F(1, 10 ** 9):
+    near_int = abs(pn - k) <= eps
+    if abs(pq - F(1, N)) <= eps and pq != F(1, N):
+        return "any", sorted({s[0], s[min(N - 1, max(0, int(k) - 1))]})
+    if abs(pq - (1 - F(1, N))) <= eps and pq != 1 - F(1, N):
+        return "any", sorted({s[-1], s[min(N - 1, max(0, int(k) - 1))]})
+    if pq <= F(1, N):
+        return "min", s[0]
+    if pq > 1 - F(1, N):
+        return "max", s[-1]
+    if near_int:
         return "kth", s[int(k) - 1]
     return "between", (s[math.floor(pn) - 1], s[min(N - 1, math.ceil(pn) - 1)])
 
